@@ -6,7 +6,10 @@
     W [ctx=<c>] <state>* | <word> (;; <word>)*
                                    expand the word(s) in context c (`set -f`): arg (default) `probe w…`,
                                    for `for v in w…; do probe "$v"; done`, arr `v=(w…)`, asg `v=w`,
-                                   exp `export v=w`, here `cat <<E` with the (text-unit) word as content
+                                   exp `export v=w`, here `cat <<E` with the (text-unit) word as content,
+                                   fn: a history — words 1, 3, … inside a function call (which first
+                                   declares the `@NAME=…` locals with `typeset`), words 2, 4, … at top level
+                                   after the return; observation `step | step | … v=<globals afterwards>`
     P [portable=1] | <hex>         what the braced-parameter lexer makes of `${<chars>`
     R <state>* raw=<0|1> n=<k> | <stdin hex>     `read [-r] v1 … vk` on the given standard input
     WS                             the set of white-space code points (tie to Rust `char::is_whitespace`)
@@ -181,6 +184,8 @@ structure ReadOpts where
   n : Nat := 1
   ctx : String := "arg"
   portable : Bool := false
+  /-- variables declared local (`typeset`) at the start of every function call of a `fn` history -/
+  locals : List (String × Var) := []
 
 def applyState (st : Env × ReadOpts) (tok : String) : Option (Env × ReadOpts) :=
   let (env, ro) := st
@@ -200,6 +205,10 @@ def applyState (st : Env × ReadOpts) (tok : String) : Option (Env × ReadOpts) 
       | n :: vs => if n.toNat? = some vs.length then (vs.mapM decChars).map (fun l => ({ env with pos := l }, ro)) else none
       | [] => none
     else
+      if k.startsWith "@" then
+        (parseValue v).map (fun val =>
+          (env, { ro with locals := ro.locals ++ [((k.drop 1).toString, { value := val, readOnly := false })] }))
+      else
       let (readOnly, name) := if k.startsWith "!" then (true, (k.drop 1).toString) else (false, k)
       (parseValue v).map (fun val =>
         ({ env with vars := setVar env.vars name { value := val, readOnly := readOnly } }, ro))
@@ -250,6 +259,24 @@ def runCtx (spec : Bool) (ctx : String) (env : Env) (ws : List Word) : Option (E
   | "here", [w] => (wordToText w).map (fun ts =>
       obsSingle (if spec then posixExpandText env (mkText ts) else expandTextJoined env (mkText ts)))
   | _, _ => none
+
+/-- a history of expansions across function calls: words 1, 3, … are expanded (as command
+    arguments) inside a function call that first declares the given locals, words 2, 4, … at top
+    level after the return.  One result per step; the first error ends the history. -/
+def runHistory (spec : Bool) (locals : List (String × Var)) (env : Env) (ws : List Word) :
+    Env × List String :=
+  let one := fun (e : Env) (w : Word) => if spec then posixExpandArg e w else expandWordMultiple e w
+  let rec go (e : Env) (inside : Bool) (acc : List String) : List Word → Env × List String
+    | [] => (e, acc.reverse)
+    | w :: rest =>
+      let e1 := if inside then e.pushCtx locals else e
+      match one e1 w with
+      | (e2, .error x) => ((if inside then e2.popCtx else e2), (("err=" ++ showErr x) :: acc).reverse)
+      | (e2, .ok fs) => go (if inside then e2.popCtx else e2) (!inside) (showFields fs :: acc) rest
+  go env true [] ws
+
+def obsH (r : Env × List String) : String :=
+  " | ".intercalate r.2 ++ " v=" ++ showVars r.1
 
 def showRVal (o : Option (List Char)) : String :=
   match o with
@@ -305,6 +332,11 @@ def runLine (line : String) : String :=
           match parseWords (words r) with
           | none => "bad-case\t-"
           | some ws =>
+            if ro.ctx = "fn" then
+              -- the function definition that precedes every step leaves `$?` = 0
+              let env := { env with exitStatus := 0 }
+              obsH (runHistory false ro.locals env ws) ++ "\t=" ++ obsH (runHistory true ro.locals env ws)
+            else
             match runCtx false ro.ctx env ws, runCtx true ro.ctx env ws with
             | some a, some b => obsW a ++ "\t=" ++ obsW b
             | _, _ => "bad-case\t-"
